@@ -69,7 +69,16 @@ def stable_division(a, b, epsilon=1e-7):
     return a / b
 
 
+def _assert_autograd_available():
+    # `torch.enable_grad()` does not re-enable recording under `torch.inference_mode()`: the outputs would have no graph,
+    # and the derivative would silently come out as zero (a Milstein step would be an Euler step).
+    if torch.is_inference_mode_enabled():
+        raise RuntimeError("This computation differentiates the drift/diffusion, which is not possible under "
+                           "`torch.inference_mode()`. Use `torch.no_grad()` instead.")
+
+
 def vjp(outputs, inputs, **kwargs):
+    _assert_autograd_available()
     if torch.is_tensor(inputs):
         inputs = [inputs]
     _dummy_inputs = [torch.as_strided(i, (), ()) for i in inputs]  # Workaround for PyTorch bug #39784.  # noqa: 74
@@ -84,6 +93,7 @@ def vjp(outputs, inputs, **kwargs):
 
 def jvp(outputs, inputs, grad_inputs=None, **kwargs):
     # Unlike `torch.autograd.functional.jvp`, this function avoids repeating forward computation.
+    _assert_autograd_available()
     if torch.is_tensor(inputs):
         inputs = [inputs]
     _dummy_inputs = [torch.as_strided(i, (), ()) for i in inputs]  # Workaround for PyTorch bug #39784.  # noqa: 88
